@@ -111,12 +111,12 @@ theorem applyLoop_sim (x : Array α) (a : α) (i e : Nat) (hsz : x.size = N * C)
     rw [applyLoop.eq_def (chan x C c N)]
     simp only [h, if_false]
 
-theorem rampLoop_sim (x : Array α) (delta offset : α) (i peak : Nat) (hsz : x.size = N * C) :
-    (rampLoop x C c delta offset i peak).size = N * C ∧
-    chan (rampLoop x C c delta offset i peak) C c N = rampLoop (chan x C c N) 1 0 delta offset i peak ∧
-    ∀ c', c' < C → c' ≠ c → chan (rampLoop x C c delta offset i peak) C c' N = chan x C c' N := by
-  fun_induction rampLoop x C c delta offset i peak with
-  | case1 x offset i h offset' v ih =>
+theorem rampLoop_sim (x : Array α) (delta : α) (i peak : Nat) (hsz : x.size = N * C) :
+    (rampLoop x C c delta i peak).size = N * C ∧
+    chan (rampLoop x C c delta i peak) C c N = rampLoop (chan x C c N) 1 0 delta i peak ∧
+    ∀ c', c' < C → c' ≠ c → chan (rampLoop x C c delta i peak) C c' N = chan x C c' N := by
+  fun_induction rampLoop x C c delta i peak with
+  | case1 x i h offset v ih =>
     have hsz' : (wr x C c i (sat1 v)).size = N * C := by rw [size_wr]; exact hsz
     obtain ⟨i1, i2, i3⟩ := ih hsz'
     refine ⟨i1, ?_, fun c' h1 h2 => ?_⟩
@@ -124,7 +124,7 @@ theorem rampLoop_sim (x : Array α) (delta offset : α) (i peak : Nat) (hsz : x.
       simp only [h, if_true, rd_chan x C c N hsz, chan_wr x C c N hc hsz]
       rfl
     · rw [i3 c' h1 h2, chan_wr_other x C c c' N hc h1 h2]
-  | case2 x offset i h =>
+  | case2 x i h =>
     refine ⟨hsz, ?_, fun _ _ _ => rfl⟩
     rw [rampLoop.eq_def (chan x C c N)]
     simp only [h, if_false]
@@ -187,8 +187,7 @@ theorem excursion_sim (x : Array α) (x0 : α) (curr i : Nat) (hsz : x.size = N 
   obtain ⟨a1, a2, a3⟩ := applyLoop_sim C c N hc x (coefA maxval xi) start e hsz
   split
   · obtain ⟨r1, r2, r3⟩ := rampLoop_sim C c N hc (applyLoop x C c (coefA maxval xi) start e)
-      ((x0 - rd (applyLoop x C c (coefA maxval xi) start e) C c 0) / ofNat peak)
-      (x0 - rd (applyLoop x C c (coefA maxval xi) start e) C c 0) curr peak a1
+      ((x0 - rd (applyLoop x C c (coefA maxval xi) start e) C c 0) / ofNat peak) curr peak a1
     refine ⟨r1, ?_, trivial, fun c' h1 h2 => ?_⟩
     · rw [r2, a2, ← a2, rd_chan _ C c N a1]
     · rw [r3 c' h1 h2, a3 c' h1 h2]
